@@ -189,9 +189,7 @@ func c16Worker(args []string) {
 		if si%n != shard {
 			continue
 		}
-		if si%16 == shard%16 {
-			o.beat()
-		}
+		o.beat()
 		mk := func(choices []int8) rt.Case {
 			cs := make([]string, len(choices))
 			for i, c := range choices {
@@ -232,6 +230,9 @@ func c16Worker(args []string) {
 		failed := false
 		check := func(x execResult, choices []int8) {
 			execs++
+			if execs%1000 == 0 {
+				o.beat() // progress marker: the no-progress watchdog must not depend on how loaded the machine is
+			}
 			o.evals++
 			o.trans += int64(len(x.points))
 			if len(x.points) > maxPoints {
